@@ -86,11 +86,45 @@ func runC04(e *Env) error {
 			}
 		}
 	}
+	// (b') a dash removes space, tab, CR and LF next to the delimiter and no other byte of the literal text
+	n = e.N(300, 20000)
+	for i := 0; i < n && !r.Full(); i++ {
+		edge := pick(rg, []string{"\x00", "\x01", "\x0b", "\x0c", "\x1f", "\x7f", "\u00a0", "\u2028", "\x80", "a", "."})
+		wsr := pick(rg, []string{"", " ", "\n", " \t\r\n "})
+		l := fixLit(genLit(rg, 6)+edge) + wsr
+		rgt := wsr + fixLit(edge+genLit(rg, 6))
+		src := l + "{{- v -}}" + rgt
+		want := trimWsRight(l) + "V" + trimWsLeft(rgt)
+		c := &Case{Templates: map[string]string{"main": src}, Main: "main", Ctx: map[string]any{"v": "V"}, FailAt: -1}
+		im, _, _, err := compareCase(e, c, "render-model-c04", "correspondence render on dashed literal chunks")
+		if err != nil {
+			return err
+		}
+		r.Seen("d:"+src, true)
+		if im.Class != "" || im.Out != want {
+			if r.Violate(Violation{Key: "dash-trims-non-whitespace", What: fmt.Sprintf("%q renders %q, expected %q: a dash may remove only space, tab, CR, LF", src, im.Out, want),
+				Broken: "theorem C13_only_ws / C04_chunks (implementation-only oracle)", Replay: map[string]any{"kind": "src", "src_hex": hx(src), "want_hex": hx(want), "got_hex": hx(im.Out), "class": im.Class}}) {
+				break
+			}
+		}
+	}
 	// (d) verbatim bodies
 	n = e.N(300, 10000)
 	for i := 0; i < n && !r.Full(); i++ {
 		body := genLit(rg, 8) + pick(rg, []string{"{{ secret }}", "{% if secret %}x{% endif %}", "{{ secret|upper }}", "{# c #}", "{{ spyfn() }}", "{% for i in secret %}{{ i }}{% endfor %}"}) + genLit(rg, 8)
-		src := genLit(rg, 5) + "{% verbatim %}" + body + "{% endverbatim %}" + genLit(rg, 5)
+		vb := "{% verbatim %}" + body + "{% endverbatim %}"
+		// wherever a verbatim block stands: top level, loop, block, macro body, included template
+		switch rg.Intn(6) {
+		case 1:
+			vb = "{% for q in [1, 2] %}" + vb + "{% endfor %}"
+		case 2:
+			vb = "{% block b %}" + vb + "{% endblock %}"
+		case 3:
+			vb = "{% macro vm(secret) %}" + vb + "{% endmacro %}{{ vm('ARG') }}{{ _self.vm(secret) }}"
+		case 4:
+			vb = "{% if true %}" + vb + "{% endif %}{% apply upper %}x{% endapply %}"
+		}
+		src := genLit(rg, 5) + vb + genLit(rg, 5)
 		c1 := &Case{Templates: map[string]string{"main": src}, Main: "main", Ctx: map[string]any{"secret": "S3CR3T"}, SpyFunctions: []string{"spyfn"}, FailAt: -1}
 		c2 := &Case{Templates: map[string]string{"main": src}, Main: "main", Ctx: map[string]any{"secret": []interface{}{"zzTOPzz"}}, SpyFunctions: []string{"spyfn"}, FailAt: -1}
 		i1, _, _, err := compareCase(e, c1, "render-model-c04", "correspondence render on verbatim templates")
@@ -99,7 +133,7 @@ func runC04(e *Env) error {
 		}
 		i2 := runImpl(c2)
 		r.Seen("v:"+src, true)
-		if i1.Class != i2.Class || i1.Out != i2.Out || strings.Contains(i1.Out, "S3CR3T") || strings.Contains(i2.Out, "zzTOPzz") || len(i1.Spies)+len(i2.Spies) != 0 {
+		if i1.Class != i2.Class || i1.Out != i2.Out || strings.Contains(i1.Out, "S3CR3T") || strings.Contains(i2.Out, "zzTOPzz") || strings.Contains(i1.Out, "ARG") || len(i1.Spies)+len(i2.Spies) != 0 {
 			if r.Violate(Violation{Key: "verbatim-evaluated", What: fmt.Sprintf("verbatim body of %q depends on the context or was evaluated", truncate(src, 80)),
 				Broken: "theorem C04_verbatim_inert no longer describes the code (implementation-only oracle)",
 				Replay: map[string]any{"kind": "src", "src_hex": hx(src), "out1": i1.Out, "out2": i2.Out, "class1": i1.Class, "class2": i2.Class}}) {
